@@ -3,7 +3,7 @@
    (1) demo passes on the unchanged tree, (2) patch applies, (3) demo fails with it, (4) the named existing tests still build and pass with it.
    usage: confirm_seed.py <seed_dir> <worktree> [test-regex]   ->  writes <seed_dir>/confirm.json"""
 import json, os, re, subprocess, sys, time
-seed, wt = sys.argv[1], sys.argv[2]
+seed, wt = sys.argv[1].rstrip('/'), sys.argv[2]
 tests = sys.argv[3] if len(sys.argv) > 3 else None
 def sh(cmd, timeout=1800, cwd=None):
     try:
@@ -31,7 +31,7 @@ if tests:
     targets = ' '.join(t for t in tests.split('|'))
     rc, out = sh(f'nice -n 5 cmake --build {wt}/_build -j3 --target {targets}'); res['tests_build'] = rc
     if rc != 0: res['tests_build_out'] = out[-800:]
-    rc, out = sh(f'ctest --test-dir {wt}/_build -R "{tests}" --timeout 600'); res['tests_exit'] = rc; res['tests_out'] = out[-600:]
+    rc, out = sh(f'ctest --test-dir {wt}/_build -R "({tests})$" --timeout 600'); res['tests_exit'] = rc; res['tests_out'] = out[-600:]
 sh(f'git -C {wt} checkout -- include')
 os.remove(exe) if os.path.exists(exe) else None
 res['confirmed'] = res['demo_unchanged_exit'] == 0 and res['apply'] == 0 and res['demo_changed_exit'] != 0 and (not tests or res.get('tests_exit') == 0)
